@@ -12,6 +12,8 @@ from checks.c10 import C10, closure
 class C11(C10):
     prop = "C11"
     label = "c11"
+    pool = "c11"
+    n_generated = {"quick": 6, "thorough": 24}
     with_inverse = True
     feature_overrides = {"renamed_select": False, "renamed_enum": False, "inverse": True}
     rule = ("plan = schema with INVERSE attributes (seeded: 1..4 per schema, inherited ones, SET/BAG and single valued, over entity-valued and "
